@@ -1,4 +1,4 @@
-(* C17: soundness of the Go-code checker of GoCode.v. *)
+(* C17: soundness of the Go-code checkers of GoCode.v. *)
 From DepsDev Require Import Lib.Base Api.Desc Api.Desc_proofs Api.GoCode.
 
 Lemma go_enum_eqb_sound : forall x y, go_enum_eqb x y = true -> x = y.
@@ -7,8 +7,45 @@ Proof.
   intros u v E. apply (list_eqb_sound' value_eqb); auto using value_eqb_sound.
 Qed.
 
+Lemma go_field_eqb_sound : forall x y, go_field_eqb x y = true -> x = y.
+Proof.
+  intros [a1 a2 a3 a4 a5 a6 a7] [b1 b2 b3 b4 b5 b6 b7] H. unfold go_field_eqb in H. cbn in H. split_andb.
+  f_equal; auto using bytes_eqb_sound.
+Qed.
+
+Lemma forallb_Forall : forall {A} (p : A -> bool) (P : A -> Prop) l,
+  (forall x, p x = true -> P x) -> forallb p l = true -> Forall P l.
+Proof.
+  intros A p P l Hp. induction l as [|x l IH]; cbn; intros H; constructor.
+  - apply Hp. apply andb_true_iff in H. tauto.
+  - apply IH. apply andb_true_iff in H. tauto.
+Qed.
+
+Lemma name_ok_b_sound : forall got want, name_ok_b got want = true -> name_ok got want.
+Proof.
+  intros got want H. unfold name_ok_b in H. destruct (strip_prefix want got) as [r|] eqn:E; try discriminate.
+  exists r. split.
+  - apply strip_prefix_spec. exact E.
+  - apply (forallb_Forall (fun c => N.eqb c 95)); auto. intros x Hx. apply N.eqb_eq. exact Hx.
+Qed.
+
+Lemma gf_match_b_sound : forall want got, gf_match_b want got = true -> gf_match want got.
+Proof.
+  intros want got H. unfold gf_match_b in H. apply andb_true_iff in H. destruct H as [H1 H2]. split.
+  - apply name_ok_b_sound. exact H1.
+  - apply go_field_eqb_sound. exact H2.
+Qed.
+
+Lemma forall2b_sound : forall {A B} (p : A -> B -> bool) (P : A -> B -> Prop),
+  (forall x y, p x y = true -> P x y) -> forall l l', forall2b p l l' = true -> Forall2 P l l'.
+Proof.
+  intros A B p P Hp. induction l as [|x l IH]; destruct l' as [|y l']; cbn; intros H; try discriminate; constructor.
+  - apply Hp. apply andb_true_iff in H. tauto.
+  - apply IH. apply andb_true_iff in H. tauto.
+Qed.
+
 Section Code.
-  Variables (syntax pkg : bytes) (ges : list go_enum) (gss : list go_struct).
+  Variables (syntax pkg : bytes) (ext : ext_types) (ges : list go_enum) (gss : list go_struct).
 
   Lemma enum_coded_b_sound : forall scope e, enum_coded_b ges scope e = true -> enum_coded ges scope e.
   Proof.
@@ -17,20 +54,26 @@ Section Code.
     apply go_enum_eqb_sound in E. unfold enum_coded. rewrite E. exact Hg.
   Qed.
 
-  Lemma struct_coded_b_sound : forall scope m,
-    struct_coded_b syntax pkg gss scope m = true -> struct_coded syntax pkg gss scope m.
+  Lemma struct_is_b_sound : forall name want, struct_is_b gss name want = true -> struct_is gss name want.
   Proof.
-    intros scope m H. unfold struct_coded_b in H. cbv zeta in H.
-    apply existsb_exists in H. destruct H as [g [Hg E]].
+    intros name want H. unfold struct_is_b in H. apply existsb_exists in H. destruct H as [g [Hg E]].
     apply andb_true_iff in E. destruct E as [E1 E2].
     exists g. repeat split; auto.
-    - apply bytes_eqb_sound; auto.
-    - apply (list_eqb_sound' (pair_eqb bytes_eqb bytes_eqb)); auto.
-      intros u v E. apply (pair_eqb_sound bytes_eqb bytes_eqb); auto using bytes_eqb_sound.
+    - apply bytes_eqb_sound. exact E1.
+    - apply (forall2b_sound gf_match_b); auto using gf_match_b_sound.
+  Qed.
+
+  Lemma struct_coded_b_sound : forall scope m,
+    struct_coded_b syntax pkg ext gss scope m = true -> struct_coded syntax pkg ext gss scope m.
+  Proof.
+    intros scope m H. unfold struct_coded_b in H. cbv zeta in H.
+    apply andb_true_iff in H. destruct H as [H1 H2]. split.
+    - apply struct_is_b_sound. exact H1.
+    - intros f Hf. rewrite forallb_forall in H2. apply struct_is_b_sound. apply (H2 f Hf).
   Qed.
 
   Lemma msg_coded_b_sound : forall m scope,
-    msg_coded_b syntax pkg ges gss scope m = true -> msg_coded syntax pkg ges gss scope m.
+    msg_coded_b syntax pkg ext ges gss scope m = true -> msg_coded syntax pkg ext ges gss scope m.
   Proof.
     induction m as [n fs os ns es me IH] using message_ind_nested.
     intros scope H. cbn [msg_coded_b] in H. destruct me.
@@ -43,9 +86,37 @@ Section Code.
   Qed.
 End Code.
 
-Theorem gocode_ok_sound : forall f ges gss, gocode_ok f ges gss = true -> gocode_spec f ges gss.
+Theorem gocode_ok_sound : forall f ext ges gss, gocode_ok f ext ges gss = true -> gocode_spec f ext ges gss.
 Proof.
-  intros f ges gss H. unfold gocode_ok in H. apply andb_true_iff in H. destruct H as [H1 H2]. split.
+  intros f ext ges gss H. unfold gocode_ok in H. apply andb_true_iff in H. destruct H as [H1 H2]. split.
   - intros e He. rewrite forallb_forall in H1. apply enum_coded_b_sound. auto.
   - intros m Hm. rewrite forallb_forall in H2. apply msg_coded_b_sound. auto.
+Qed.
+
+Lemma client_ok_b_sound : forall f ext s me c, client_ok_b f ext s me c = true -> client_ok f ext s me c.
+Proof.
+  intros f ext s me c H. unfold client_ok_b in H. split_andb. unfold client_ok.
+  split; [apply bytes_eqb_sound; auto|]. split; [apply bytes_eqb_sound; auto|].
+  intros U. rewrite U in H0. split_andb. split; apply bytes_eqb_sound; auto.
+Qed.
+
+Lemma handler_ok_b_sound : forall f ext g s me, handler_ok_b f ext g s me = true -> handler_ok f ext g s me.
+Proof.
+  intros f ext g s me H. unfold handler_ok_b in H. apply existsb_exists in H. destruct H as [h [Hh E]].
+  split_andb. exists h. split; auto. split; [apply bytes_eqb_sound; auto|].
+  split; [apply (list_eqb_sound' bytes_eqb); auto using bytes_eqb_sound|].
+  intros U. rewrite U in H0. split_andb. split.
+  - apply bytes_eqb_sound; auto.
+  - apply (list_eqb_sound' bytes_eqb); auto using bytes_eqb_sound.
+Qed.
+
+Theorem grpc_code_ok_sound : forall f ext g, grpc_code_ok f ext g = true -> grpc_code_spec f ext g.
+Proof.
+  intros f ext g H. unfold grpc_code_ok in H. apply existsb_exists in H. destruct H as [s [Hs E]].
+  split_andb. exists s. split; auto. split; [apply bytes_eqb_sound; auto|].
+  split; [apply (forall2b_sound (client_ok_b f ext s)); auto using client_ok_b_sound|].
+  split.
+  - apply (list_eqb_sound' (pair_eqb bytes_eqb bytes_eqb)); auto.
+    intros x y E'. apply (pair_eqb_sound bytes_eqb bytes_eqb); auto using bytes_eqb_sound.
+  - intros me Hme. rewrite forallb_forall in H0. apply handler_ok_b_sound. auto.
 Qed.
